@@ -112,8 +112,8 @@ Close Scope string_scope.
 (* The premise holds for EVERY rendered expression.  sc_ok (Spec/ScriptSafe.v) is a local form of the premise -
    every writer token lexes alone and may be followed by the first character of the next non-empty one - which
    composes along the structure of the renderer; it implies params_sep (C01_local_safety_gives_the_premise).
-   For every expression tree without raw SQL (expr_plain: no Custom / CustomWith / custom keyword / custom function
-   or operator, constants written as lexable literals), every backend, both rendering paths, every table whose
+   For every expression tree without custom templates whose raw SQL atoms lex on their own (expr_plain: Custom text,
+   custom keywords, function and operator names; constants written as lexable literals), every backend, both rendering paths, every table whose
    spellings lex (spellings_lex), and sub-query renderings that are themselves locally safe: the script of the
    expression is locally safe, hence separable, hence C01_engine_reads_the_placeholders applies to its text
    (Proofs/ExprSafeProofs.v: induction over the expression renderer, each fixed text of the renderer checked for the
@@ -128,7 +128,7 @@ Print Assumptions C01_local_safety_gives_the_premise.
 
 Theorem C01_rendered_expression_is_separable :
   forall (ftext : bool -> N -> str) Q (rq : Q -> script) is_alpha b T (e : expr Q) common,
-  spellings_lex b T -> (forall q, sc_ok ftext b false (rq q) = true) -> expr_plain ftext Q b false e = true ->
+  spellings_lex b T -> (forall q, sc_ok ftext b false (rq q) = true) -> expr_plain ftext Q b false (fun _ => true) e = true ->
   sc_ok ftext b false (rexpr Q rq is_alpha b T common e) = true /\
   params_sep ftext b (rexpr Q rq is_alpha b T common e) = true.
 Proof. exact rendered_expression_is_separable. Qed.
@@ -144,3 +144,37 @@ Theorem C01_hole_is_read_as_its_number :
   forall b n, eng_tokens b (hole_text b n) = Some [TkParam (hole_no b n)].
 Proof. exact hole_lexes. Qed.
 Print Assumptions C01_hole_is_read_as_its_number.
+
+(* ... and for EVERY rendered STATEMENT.  query_plain (Proofs/StmtSafeProofs.v) is the decidable syntactic class of
+   statements without custom templates and without the FIELD ordering (whose unspaced `=` the strict lexer fuses with
+   the sign of a negative number), whose raw SQL atoms (Custom expressions, custom keywords, function and operator
+   names, TABLESAMPLE texts) lex on their own, nested to the given depth.  For every such SELECT / INSERT /
+   UPDATE / DELETE / WITH statement, every backend, every nesting depth and every table whose spellings lex, the
+   rendered script is locally safe, hence separable: C01_engine_reads_the_placeholders applies to the SQL text that
+   build() returns - the engine reads exactly one placeholder per bound value, numbered 1..n ascending on Postgres.
+   (Induction over the statement renderer, clause by clause, with the knot over the nesting depth.) *)
+Require Import SQV.Model.Stmt SQV.Model.RenderStmt SQV.Proofs.StmtSafeProofs.
+Theorem C01_rendered_statement_is_separable :
+  forall (ftext : bool -> N -> str) is_alpha b T fuel q, spellings_lex b T ->
+  query_plain ftext b false fuel q = true -> params_sep ftext b (rquery is_alpha b T fuel q) = true.
+Proof. exact rendered_statement_is_separable. Qed.
+Print Assumptions C01_rendered_statement_is_separable.
+
+Theorem C01_engine_reads_the_placeholders_of_every_plain_statement :
+  forall (ftext : bool -> N -> str) is_alpha more b fuel q sql vals,
+  query_plain ftext b false fuel q = true ->
+  emit_params ftext b (rquery is_alpha b (tables_of more b) fuel q) = Ok (sql, vals) ->
+  exists ts, eng_tokens b sql = Some ts /\
+             params_of ts = map (hole_no b) (map N.of_nat (seq 1 (List.length vals))).
+Proof.
+  intros ftext is_alpha more b fuel q sql vals Hp He.
+  apply (engine_reads_the_placeholders ftext b _ sql vals He).
+  apply rendered_statement_is_separable; [apply generated_tables_spell_lexably|exact Hp].
+Qed.
+Print Assumptions C01_engine_reads_the_placeholders_of_every_plain_statement.
+
+(* not vacuous: the sample statement of C01_statement_values_sample is plain *)
+Example C01_sample_is_plain :
+  query_plain (fun _ _ => []) Postgres false 1 c01_sample = true /\
+  query_plain (fun _ _ => []) MySQL false 1 c01_sample = true.
+Proof. split; vm_compute; reflexivity. Qed.
